@@ -42,7 +42,7 @@ for c in $CHECKS; do
   out=$(RMLV_ROOT=/tmp/seedroot /tmp/seedharness/target/release/rmlv run $c --tier quick --seed 7 2>&1); code=$?
   sig=$(echo "$out" | grep -E "^  signature:" | head -3 | sed 's/^  signature: //' | cut -c1-110 | tr '\n' ';')
   echo "[$P/$X] check $c exit=$code $sig"
-  results="$results{\"check\":\"$c\",\"exit\":$code,\"signatures\":\"$(echo $sig | sed 's/"/\\"/g')\"},"
+  results="$results{\"check\":\"$c\",\"exit\":$code,\"signatures\":\"$(echo $sig | sed 's/[\\"]/_/g')\"},"
 done
 git -C /tmp/seedrepo checkout -q -- .
 D=/verif/seeded/${P}_$X$SUFFIX; mkdir -p $D
